@@ -441,14 +441,27 @@ func genBody(r *hv.Rng, withDyn bool) (bodyTexts, map[string]int) {
 	var nb, jb strings.Builder
 	e1, e2 := e(), e()
 	fmt.Fprintf(&nb, "name = %s\nfirst = %s\n", e1, e2)
-	fmt.Fprintf(&jb, "{\"name\": %s, \"first\": %s, \"blk\": [", jstr(e1), jstr(e2))
+	// JSON side: object forms, or (arrayForms) the same configuration with the
+	// top-level body, the block bodies and the label level of "dynamic" written
+	// as arrays of objects
+	arrayForms := r.Chance(0.5)
+	if arrayForms {
+		feat["body:json-array-forms"]++
+		fmt.Fprintf(&jb, "[{\"name\": %s}, {\"first\": %s, \"blk\": [", jstr(e1), jstr(e2))
+	} else {
+		fmt.Fprintf(&jb, "{\"name\": %s, \"first\": %s, \"blk\": [", jstr(e1), jstr(e2))
+	}
 	for i := 0; i < nblk; i++ {
 		v, w := e(), e()
 		fmt.Fprintf(&nb, "blk {\n  v = %s\n  inner {\n    w = %s\n  }\n}\n", v, w)
 		if i > 0 {
 			jb.WriteString(", ")
 		}
-		fmt.Fprintf(&jb, "{\"v\": %s, \"inner\": {\"w\": %s}}", jstr(v), jstr(w))
+		if arrayForms && r.Chance(0.7) {
+			fmt.Fprintf(&jb, "[{\"v\": %s}, {\"inner\": [[{}, {\"w\": %s}]]}]", jstr(v), jstr(w))
+		} else {
+			fmt.Fprintf(&jb, "{\"v\": %s, \"inner\": {\"w\": %s}}", jstr(v), jstr(w))
+		}
 	}
 	jb.WriteString("]")
 	if withDyn {
@@ -456,7 +469,11 @@ func genBody(r *hv.Rng, withDyn bool) (bodyTexts, map[string]int) {
 		k := e()
 		inner := r.Pick("dblk.value", "dblk.value[*]", "[dblk.key, dblk.value]", "yield(dblk.value)")
 		fmt.Fprintf(&nb, "dynamic \"dblk\" {\n  for_each = %s\n  content {\n    v = %s\n    k = %s\n  }\n}\n", fe, inner, k)
-		fmt.Fprintf(&jb, ", \"dynamic\": {\"dblk\": {\"for_each\": %s, \"content\": {\"v\": %s, \"k\": %s}}}", jstr(fe), jstr(inner), jstr(k))
+		if arrayForms {
+			fmt.Fprintf(&jb, "}, {\"dynamic\": [{}, {\"dblk\": [[{\"for_each\": %s}, {\"content\": [[{\"v\": %s}, {\"k\": %s}]]}]]}]", jstr(fe), jstr(inner), jstr(k))
+		} else {
+			fmt.Fprintf(&jb, ", \"dynamic\": {\"dblk\": {\"for_each\": %s, \"content\": {\"v\": %s, \"k\": %s}}}", jstr(fe), jstr(inner), jstr(k))
+		}
 		feat["body:dynamic-block"]++
 		if r.Chance(0.4) {
 			// a dynamic block nested in a static block, iterating over a splat of the outer iterator
@@ -465,5 +482,8 @@ func genBody(r *hv.Rng, withDyn bool) (bodyTexts, map[string]int) {
 		}
 	}
 	jb.WriteString("}")
+	if arrayForms {
+		jb.WriteString("]")
+	}
 	return bodyTexts{native: nb.String(), json: jb.String(), dyn: withDyn}, feat
 }
